@@ -20,7 +20,7 @@
      stop / run_stop / run_split / plan_returned   stop points, what they do, plans, "every run(until=...) of the plan returned" *)
 From Coq Require Import ZArith QArith List.
 From ONL Require Import Kernel.Model Kernel.Script Kernel.Keys Kernel.Inv Kernel.Order Kernel.Deliver Kernel.DeliverWf
-  Kernel.DeliverVal Kernel.StopFrame Kernel.StopInv Kernel.Stop Kernel.StopSpec.
+  Kernel.DeliverVal Kernel.StopFrame Kernel.StopInv Kernel.Stop Kernel.StopSpec Kernel.StopErase Kernel.StopSplit Kernel.StopExamples.
 Import ListNotations.
 
 (* ---- determinism ------------------------------------------------------------------------------------------------------- *)
@@ -142,3 +142,41 @@ Theorem C03_stop_after_all_callbacks : forall fuel codes s s' m rest ev l v,
   get_event (e_ev m) s = Some ev -> cbs ev = Some l -> cb_chain fuel codes (e_ev m) l (loop_start m rest s) s'.
 Proof. exact step_stop_chain. Qed.
 Print Assumptions C03_stop_after_all_callbacks.
+
+(* ---- split transparency --------------------------------------------------------------------------------------------------- *)
+
+(* split_transparent_partial -- ALL stop points, ALL programs, no hypothesis but the well-formedness [uinv] that every execution
+   has: with its stop callbacks erased, the split run IS the free run (step() repeated, whatever the steps answer: the
+   uninterrupted execution) in which an INERT urgent event -- pre-triggered, without callbacks -- is scheduled at every accepted
+   numeric horizon, for the numbers of steps the split run made.  [erase] changes callback lists only: clock, agenda, processes,
+   shared variables and the whole trace of the split run are those of that free run. *)
+Theorem C03_split_transparent_partial : forall fuel codes plan s,
+  uinv s -> exists ks, length ks = length plan /\
+    erase (fst (run_split fuel codes plan s)) = ghost_run fuel codes (combine plan ks) (erase s).
+Proof. exact split_ghost. Qed.
+Print Assumptions C03_split_transparent_partial.
+
+(* plans of run(), run(until=event), step(n): nothing is inserted, the split run IS a free run *)
+Theorem C03_split_transparent_events_steps : forall fuel codes plan s,
+  uinv s -> no_horizon plan -> exists K, erase (fst (run_split fuel codes plan s)) = free_run K fuel codes (erase s).
+Proof. exact split_transparent_events_steps. Qed.
+Print Assumptions C03_split_transparent_events_steps.
+
+(* ... and ends where the uninterrupted run() ends: identical traces, entry by entry *)
+Theorem C03_split_transparent_events_steps_run : forall fuel codes plan s U,
+  uinv s -> no_stop s -> no_horizon plan ->
+  run fuel codes UNone s = (U, ROk) -> agenda (fst (run_split fuel codes plan s)) = [] ->
+  erase (fst (run_split fuel codes plan s)) = U /\ obs (fst (run_split fuel codes plan s)) = obs U /\
+  logs (fst (run_split fuel codes plan s)) = logs U.
+Proof. exact split_transparent_events_steps_run. Qed.
+Print Assumptions C03_split_transparent_events_steps_run.
+
+(* the uninterrupted run() is a free run; a free run on an empty agenda stands still *)
+Theorem C03_run_is_free_run : forall fuel codes s, exists k, fst (run fuel codes UNone s) = free_run k fuel codes s.
+Proof. exact run_none_free. Qed.
+Print Assumptions C03_run_is_free_run.
+
+(* stop callbacks are invisible below run(): every step commutes with their erasure *)
+Theorem C03_step_erase : forall fuel codes s, uinv s -> fst (step fuel codes (erase s)) = erase (fst (step fuel codes s)).
+Proof. exact step_erase. Qed.
+Print Assumptions C03_step_erase.
